@@ -20,7 +20,7 @@ GenShapes == { s \in Shapes : s.x \in GenExts }
 Init == shape \in GenShapes /\ prog \in OpPrograms(Depth) /\ i = 0 /\ res = <<>>
 
 Apply == /\ i < Len(prog)
-         /\ \E o \in OpOutcomes(prog[i + 1]), sm \in { "same", "n/a" } :
+         /\ \E o \in OpOutcomes(prog[i + 1]) \ NotRun, sm \in { "same", "n/a" } :
               res' = Append(res, [o |-> o, ms |-> 0, same |-> IF prog[i + 1].op = "MarshalJSON2" /\ o = "ok" THEN "same" ELSE "n/a"])
          /\ i' = i + 1 /\ UNCHANGED <<shape, prog>>
 
